@@ -301,12 +301,14 @@ pub fn tls_cell(st: &State, t: &mut Toks) -> PResult<String> {
     let mut dribble = false;
     let mut relay_port: u16 = 0;
     let mut cutfirst = false;
+    let mut rival = false;
     let mut hold_ms: u64 = 0;
     while let Ok(tok) = t.next() {
         match tok {
             "relisten" => relisten = true,
             "dribble" => dribble = true,
             "cutfirst" => cutfirst = true,
+            "rival" => rival = true,
             p if p.starts_with("hold=") => hold_ms = p[5..].parse().map_err(|_| "hold".to_string())?,
             p if p.starts_with("port=") => relay_port = p[5..].parse().map_err(|_| "port".to_string())?,
             other => return Err(format!("tls cell option {}", other)),
@@ -326,6 +328,18 @@ pub fn tls_cell(st: &State, t: &mut Toks) -> PResult<String> {
             Err(e) if relay_port != 0 => return Ok(format!("TLS skipped {}", e.replace(' ', "_"))),
             Err(e) => return Err(e),
         };
+        if rival {
+            // while the client's (slowed-down) connection setup is in flight, two other peers connect to the server and say nothing
+            tokio::spawn(async move {
+                let mut keep = Vec::new();
+                for _ in 0..2 {
+                    tokio::time::sleep(Duration::from_millis(25)).await;
+                    if let Ok(s) = TcpStream::connect(addr).await { keep.push(s); }
+                }
+                tokio::time::sleep(Duration::from_secs(4)).await;
+                drop(keep);
+            });
+        }
         let mut client = DiameterClient::new(&format!("{}:{}", host, port), DiameterClientConfig { use_tls: client_tls, verify_cert: verify });
         let mut out = String::from("TLS");
         let conn = tokio::time::timeout(Duration::from_millis(2500 + 2 * hold_ms), client.connect()).await;
@@ -556,6 +570,63 @@ pub fn tls_rotate(st: &State, _t: &mut Toks) -> PResult<String> {
         None => std::env::remove_var("SSL_CERT_FILE"),
     }
     let _ = std::fs::remove_file(&tmp);
+    out
+}
+
+/// TLSSWAP <verify>: ONE client object told "localhost:<port>"; behind that port (a relay) the server is replaced between its
+/// connect() calls: certificate `match` (RSA), then `ecmatch` (another trusted, matching certificate - a rotation), then
+/// `wrongname`, then `match` again.  Every connect() is judged by the settings and the certificate presented THEN.
+pub fn tls_swap(st: &State, t: &mut Toks) -> PResult<String> {
+    let dict = st.dicts.get("b").ok_or_else(|| "dict b missing".to_string())?.clone();
+    let verify = t.boolean()?;
+    let rt = rt();
+    let out = rt.block_on(async move {
+        let seen = Arc::new(Mutex::new(Vec::new()));
+        let mut addrs = Vec::new();
+        for cert in ["match", "ecmatch", "wrongname"] {
+            addrs.push(start_server(Some(cert), Arc::clone(&dict), Arc::clone(&seen)).await?);
+        }
+        let target = Arc::new(Mutex::new(addrs[0]));
+        let l = TcpListener::bind(("127.0.0.1", 0)).await.map_err(|e| e.to_string())?;
+        let port = l.local_addr().map_err(|e| e.to_string())?.port();
+        let tg = Arc::clone(&target);
+        tokio::spawn(async move {
+            loop {
+                let (mut c, _) = match l.accept().await { Ok(x) => x, Err(_) => return };
+                let to = *tg.lock().unwrap();
+                tokio::spawn(async move {
+                    if let Ok(mut s) = TcpStream::connect(to).await {
+                        let _ = tokio::io::copy_bidirectional(&mut c, &mut s).await;
+                    }
+                });
+            }
+        });
+        let mut client = DiameterClient::new(&format!("localhost:{}", port), DiameterClientConfig { use_tls: true, verify_cert: verify });
+        let mut o = String::from("TLSSWAP");
+        for (i, which) in [0usize, 1, 2, 0].iter().enumerate() {
+            *target.lock().unwrap() = addrs[*which];
+            let r = match tokio::time::timeout(Duration::from_millis(3000), client.connect()).await {
+                Ok(Ok(mut h)) => {
+                    let d2 = Arc::clone(&dict);
+                    tokio::spawn(async move { DiameterClient::handle(&mut h, d2).await; });
+                    let mut req = DiameterMessage::new(CommandCode::CreditControl, ApplicationId::CreditControl, 0x80, 90 + i as u32, 1, Arc::clone(&dict));
+                    req.add_avp(263, None, M, UTF8String::new(&format!("swap-{}", i)).into());
+                    match tokio::time::timeout(Duration::from_secs(3), client.send_message(req)).await {
+                        Ok(Ok(fut)) => match tokio::time::timeout(Duration::from_millis(3000), fut).await {
+                            Ok(Ok(_)) => "ok",
+                            _ => "ok-noanswer",
+                        },
+                        _ => "ok-sendfailed",
+                    }
+                }
+                Ok(Err(_)) => "refused",
+                Err(_) => "timeout",
+            };
+            let _ = write!(o, " c{}={}", i + 1, r);
+        }
+        Ok::<String, String>(o)
+    });
+    rt.shutdown_timeout(Duration::from_millis(200));
     out
 }
 
